@@ -431,11 +431,16 @@ bool DependencyScan::RecomputeNodeDirty(Node* node, std::vector<Node*>* stack,
   edge->mark_ = Edge::VisitInStack;
   stack->push_back(node);
 
-  bool dirty = false;
-  edge->outputs_ready_ = true;
-  edge->deps_missing_ = false;
-
   const bool edge_deps_loaded = edge->deps_loaded_;
+
+  // A re-scan (after a dyndep file was loaded) does not load the discovered
+  // deps again: what the first scan found out about them (missing, or older
+  // than the output) still makes the edge dirty.
+  bool dirty = edge_deps_loaded && edge->deps_missing_;
+  edge->outputs_ready_ = true;
+  if (!edge_deps_loaded)
+    edge->deps_missing_ = false;
+
   if (!edge->deps_loaded_) {
     // This is our first encounter with this edge.
     edge->deps_loaded_ = true;
